@@ -2,7 +2,7 @@ CONSTANTS
   ESet <- OneToThree
   Shapes1 <- Shapes33
   Shapes2 <- Shapes22
-  Shapes3 <- Shapes22
+  Shapes3 <- Shapes21
   RSet1 <- OneToThree
   RSet2 <- OneTwo
   RSet3 <- One
